@@ -467,6 +467,16 @@ def rule_disp(c, prog):
     # the object-format byte: the single byte read between the class name (read_string) and the instance count
     # (read_le_u32); whatever the local is called, no branch on it may leave the function
     seq_reads = [n for n in core.walk_fn(fi, into_closures=False) if n.get("k") == "MethodCall" and n["m"] in ("read_string", "read_u8", "read_bool", "read_le_u32")]
+    scope = [fi]
+    if "read_string" not in [n["m"] for n in seq_reads]:
+        # the header fields are read by a private helper of the module (`InstChunkHeader::decode(&mut chunk)?`)
+        for x in core.walk_fn(fi, into_closures=False):
+            if x.get("k") in ("Call", "MethodCall"):
+                h = prog.fns.get(core.callee(x) or "")
+                if h is not None and h.body is not None and h.path.startswith("rbx_binary::deserializer") and any(y.get("k") == "MethodCall" and y["m"] == "read_string" for y in core.walk_fn(h)):
+                    scope.append(h)
+                    seq_reads = [n for n in core.walk_fn(h, into_closures=False) if n.get("k") == "MethodCall" and n["m"] in ("read_string", "read_u8", "read_bool", "read_le_u32")]
+                    break
     names = [n["m"] for n in seq_reads]
     of = None
     read_node = None
@@ -477,16 +487,30 @@ def rule_disp(c, prog):
             read_node = rest[0]
     if read_node is not None:
         of = "unbound"
-        for st in core.walk_lets(fi.body):
-            if "init" in st and any(x is read_node for x in core.walk(st["init"])) and st["pat"].get("k") == "Binding":
-                of = st["pat"]["lid"]
+        of_name = None
+        for g_ in scope:
+            for st in core.walk_lets(g_.body):
+                if "init" in st and any(x is read_node for x in core.walk(st["init"])) and st["pat"].get("k") == "Binding":
+                    of = st["pat"]["lid"]
+                    of_name = st["pat"].get("name")
+            # read straight into a struct literal field: `Header { object_format: chunk.read_u8()?, .. }`
+            for x in core.walk_fn(g_):
+                if x.get("k") == "Struct":
+                    for fx in x.get("fields") or []:
+                        if any(y is read_node for y in core.walk(fx["e"])) or (of not in (None, "unbound") and core.strip(fx["e"]).get("lid") == of):
+                            of_name = fx["f"]
+                            if of == "unbound":
+                                of = "field:" + fx["f"]
     rejects = False
     if of not in (None, "unbound"):
-        for n in core.walk_fn(fi):
-            if n.get("k") == "If" and any(x.get("lid") == of for x in core.walk(n["c"])) and any(x.get("k") == "Ret" for x in core.walk(n["t"])):
-                rejects = True
-            if n.get("k") == "Match" and core.strip(n["e"]).get("lid") == of and any(x.get("k") == "Ret" for x in core.walk(n)):
-                rejects = True
+        def mentions(e):
+            return any(x.get("lid") == of or (of_name and len(scope) > 1 and x.get("k") == "Field" and x.get("f") == of_name) for x in core.walk(e))
+        for g_ in scope:
+            for n in core.walk_fn(g_):
+                if n.get("k") == "If" and mentions(n["c"]) and any(x.get("k") == "Ret" for x in core.walk(n["t"])):
+                    rejects = True
+                if n.get("k") == "Match" and mentions(n["e"]) and core.strip(n["e"]).get("k") in ("Path", "Field") and any(x.get("k") == "Ret" for x in core.walk(n)):
+                    rejects = True
     if of is not None and not rejects:
         c.ok(R, "inst:object-format-accepted")
     else:
